@@ -38,6 +38,9 @@ def gen_plan(rng, tier, idx, opts):
         if r < 0.2:
             ops.append({"op": "policy", "v": rng.random() < 0.6})
             continue
+        if r < 0.31 and r >= 0.27:
+            ops.append({"op": "plot", "seed": rng.randrange(1 << 30)})
+            continue
         if r < 0.27:
             # shadowing switched on (or off again): while it is on only the policy relations are defined (the loss is random;
             # the library draws from numpy's GLOBAL generator, which the world re-seeds before every query)
@@ -143,6 +146,7 @@ def execute(plan):
         add_violation(res, pid + "." + inv, step, detail, sg)
 
     shadow = {"on": False, "seed": 0}
+    flags = {"policy": bool(obj.handle_small_distances_bool), "shadow": bool(obj.use_shadow_bool)}
 
     def shadow_relations(step):
         """With shadowing the loss is random, but the policy still holds: never a negative loss in dB (linear gain <= 1)
@@ -386,7 +390,37 @@ def execute(plan):
             with op_time_limit(20.0):
                 if o == "policy":
                     obj.handle_small_distances_bool = bool(op["v"])
+                    flags["policy"] = bool(op["v"])
                     last.update(op="policy", rejected=False)
+                elif o == "plot":
+                    # the plotting helper of the model (any object with a .plot method serves as the axes): it computes the
+                    # deterministic curve through the public query and must leave the model as it found it
+                    lo_, hi_ = (1.0, 3.0) if model == "metis" else ((0.0, 1.3) if model == "hata" else (-1.0, 2.0))
+                    dd = np.sort(10 ** rs.uniform(lo_, hi_, size=8))
+                    drawn = []
+
+                    class _Ax:
+                        def plot(self, x, y, **kw):
+                            drawn.append((np.array(x, dtype=float), np.array(y, dtype=float)))
+                    try:
+                        obj.plot_deterministic_path_loss_in_dB(dd.copy(), ax=_Ax())
+                    except RuntimeError:
+                        if flags["policy"]:
+                            raise
+                        drawn = None           # some distance was too small under the 'raise' policy: the helper may refuse
+                    if drawn:
+                        np.random.seed(op["seed"] % (1 << 31))
+                        saved_sh = obj.use_shadow_bool
+                        obj.use_shadow_bool = False
+                        try:
+                            want_curve = np.asarray(obj.calc_path_loss_dB(dd.copy()), dtype=float)
+                        finally:
+                            obj.use_shadow_bool = saved_sh
+                        if drawn[0][1].shape != want_curve.shape or np.max(np.abs(drawn[0][1] - want_curve)) > 1e-9:
+                            viol("formula", step, "the plotted curve is not the deterministic loss of the model", rel="plot")
+                            break
+                    last.update(op="plot", rejected=False)
+                    bump(res["probes"], "plot_helper_called")
                 elif o == "set":
                     before = public_state(obj, model)
                     rejected = False
@@ -410,6 +444,7 @@ def execute(plan):
                     res["state_keys"].append("%s|%s|rejected=%s|policy=%s|prev=%s" % (model, op["attr"], rejected, obj.handle_small_distances_bool, prev_attr[0]))
                     prev_attr[0] = op["attr"]
                 elif o == "shadow":
+                    flags["shadow"] = bool(op["on"])
                     obj.use_shadow_bool = bool(op["on"])
                     if op["on"]:
                         obj.sigma_shadow = float(op["sigma"])
@@ -421,6 +456,19 @@ def execute(plan):
                 else:
                     raise HarnessError("unknown op")
                 log.add(o, op.get("attr"), op.get("v"))
+                if bool(obj.handle_small_distances_bool) != flags["policy"]:
+                    # the relations below follow the object's own flag: a POLICY that changed without being set is reported here
+                    # ("raise or clamp according to the CONFIGURED policy")
+                    viol("small_distance", step, "after %s the model reads policy=%r, but the policy configured last is %r" % (
+                        o, obj.handle_small_distances_bool, flags["policy"]), rel="flag_drift")
+                    break
+                if bool(obj.use_shadow_bool) != flags["shadow"]:
+                    # observed on the unchanged tree: the plot helper switches shadowing off, and when the query inside it raises
+                    # (policy 'raise', a distance too small) it does not switch it on again.  Shadowing is not part of the
+                    # statement: the world follows the object's flag and counts the event.
+                    bump(res["probes"], "shadow_flag_left_off_by_a_failed_plot")
+                    flags["shadow"] = bool(obj.use_shadow_bool)
+                    shadow["on"] = flags["shadow"]
                 if shadow["on"]:
                     shadow_relations(step)
                 else:
